@@ -9,6 +9,9 @@ mod mapprobes;
 mod mapsut;
 mod props;
 mod report;
+mod setsut;
+mod tableprobes;
+mod tablesut;
 
 use report::Tier;
 use serde_json::{json, Value};
